@@ -390,6 +390,9 @@ pub fn run_case(plan: &CasePlan, seed: u64, idx: u64, fixed_ops: Option<Vec<Op>>
         if plan.scale > 1 { "jrot" } else { "nojrot" }
     );
     hooks::reset_counts();
+    if let Ok(mut g) = crate::WORKER_PANICS.lock() {
+        g.clear();
+    }
     let mut ex = Exec::new(&dir, plan.dbcfg.clone(), mix(&[seed, idx, 7]));
     ex.filtered = plan.property == "C18";
     ex.flip_journal_lz4_on_reopen = plan.property == "C15";
@@ -474,6 +477,15 @@ pub fn run_case(plan: &CasePlan, seed: u64, idx: u64, fixed_ops: Option<Vec<Op>>
         Ok(Ok(())) => None,
         Ok(Err(d)) => Some(d),
         Err(_) => Some(Deviation::new("panic", crate::take_panic())),
+    };
+    // with real worker threads a panic inside a worker only shows up as `Poisoned` (or as background
+    // work that never quiesces): report the panic itself, so that it is classified like in deterministic mode
+    let worker_panics: Vec<String> = crate::WORKER_PANICS.lock().map(|mut g| std::mem::take(&mut *g)).unwrap_or_default();
+    let dev = match dev {
+        Some(d) if !worker_panics.is_empty() && (d.detail.contains("Poisoned") || d.sig.starts_with("inconclusive")) => {
+            Some(Deviation::new("panic", worker_panics[0].clone()))
+        }
+        other => other,
     };
     // make sure nothing keeps the directory busy
     let _ = catch_unwind(AssertUnwindSafe(|| ex.close()));
